@@ -854,7 +854,7 @@ fn emit_rib(ctx: &mut Ctx, d: usize, iter: usize, tol: f64, threads: usize, ws: 
 
 pub fn generate(ctx: &mut Ctx) {
     ctx.notes.push(
-        "all inputs have n < 4096 points (n <= 3000): the model is exact only below the rayon min_len of 4096"
+        "model-compared inputs have n < 4096 points (n <= 3000): the model is exact only below the rayon min_len of 4096 (one sequential chunk); the large-n stream (n in 8192..=20000, where rayon really splits the fold of par_rcb_split and runs its reduce) is judged by the oracle only, the model prints `skip large-n (oracle only)`"
             .to_string(),
     );
     let quick = ctx.quick();
@@ -1083,6 +1083,83 @@ pub fn generate(ctx: &mut Ctx) {
                 run_op(ctx, &op);
             }
         }
+    }
+
+    // ---- large-n stream (last, so that the streams above keep their cases)
+    gen_large(ctx);
+}
+
+const LARGE_SHAPES: [&str; 3] = ["uniform_distinct", "grid_duplicates", "clustered"];
+
+/// Points for the large-n stream: well-spread distinct coordinates (ties between rounded
+/// distances are rare), a coarse lattice drawn with repetition (many duplicate points), a few
+/// dense but f32-distinct clusters.
+fn gen_large_points(r: &mut Rng, shape: usize, n: usize, d: usize) -> Vec<f64> {
+    let mut xs: Vec<f64> = Vec::with_capacity(n * d);
+    match shape {
+        0 => {
+            for _ in 0..n * d {
+                xs.push(unif(r, -10.0, 10.0));
+            }
+        }
+        1 => {
+            let side = 20 + r.usize(80);
+            let step = *r.pick(&[1.0f64, 0.5, 0.1]);
+            let off = r.range(-4, 4) as f64;
+            for _ in 0..n * d {
+                xs.push(nz(r.usize(side) as f64 * step + off));
+            }
+        }
+        _ => {
+            let m = 3 + r.usize(4);
+            let centres: Vec<f64> = (0..m * d).map(|_| unif(r, -10.0, 10.0)).collect();
+            for _ in 0..n {
+                let c = r.usize(m);
+                for a in 0..d {
+                    xs.push(nz(centres[c * d + a] + unif(r, -0.5, 0.5)));
+                }
+            }
+        }
+    }
+    xs
+}
+
+/// n in 8192..=20000: `with_min_len(4096)` lets rayon split the fold of `par_rcb_split` (a
+/// producer of length >= 2 x 4096 is split at least once, even in a 1-thread pool), so the
+/// reduce closure really combines two partial results. No model prediction (the model is one
+/// sequential chunk); the oracle applies in full.
+fn gen_large(ctx: &mut Ctx) {
+    let cases = ctx.budget(6, 60);
+    for k in 0..cases {
+        let d = 2 + (k % 2);
+        let iter = 1 + ctx.rng.usize(4);
+        let tol = pick_tol(&mut ctx.rng);
+        let threads = THREADS[k % 3];
+        let n = 8192 + ctx.rng.usize(20000 - 8192 + 1);
+        let shape = (k / 2) % 3;
+        let xs = gen_large_points(&mut ctx.rng, shape, n, d);
+        let ws = if ctx.rng.chance(1, 2) { vec![1i64; n] } else { gen_weights(&mut ctx.rng, 1, n) };
+        ctx.count("large_n_rcb");
+        ctx.count(&format!("large_n_shape_{}", LARGE_SHAPES[shape]));
+        ctx.count(&format!("large_n_threads_{}", threads));
+        let op = format_rcb(d, iter, tol, threads, n, &ws, n, &xs);
+        run_op(ctx, &op);
+    }
+    // the split itself through the hook (global pool: as many workers as cores)
+    for k in 0..ctx.budget(2, 20) {
+        let d = 2 + (k % 2);
+        let n = 8192 + ctx.rng.usize(20000 - 8192 + 1);
+        let shape = k % 3;
+        let xs: Vec<f32> = gen_large_points(&mut ctx.rng, shape, n, d).iter().map(|v| nz32(*v as f32)).collect();
+        let ws = if ctx.rng.chance(1, 2) { vec![1i64; n] } else { gen_weights(&mut ctx.rng, 1, n) };
+        let coord = ctx.rng.usize(d);
+        let tol = pick_tol(&mut ctx.rng);
+        let col: Vec<f32> = (0..n).map(|i| xs[i * d + coord]).collect();
+        let dmin = col.iter().copied().fold(f32::INFINITY, f32::min);
+        let dmax = col.iter().copied().fold(f32::NEG_INFINITY, f32::max);
+        ctx.count("large_n_split");
+        let op = format_split(d, coord, tol, dmin, dmax, &ws, &xs);
+        run_op(ctx, &op);
     }
 }
 
